@@ -29,11 +29,9 @@ func gtsBin() string {
 			gtsBinPath = p
 			return
 		}
-		dir, err := os.MkdirTemp("", "verif-gtsbin-")
-		if err != nil {
-			panic(err)
-		}
-		gtsBinPath = filepath.Join(dir, "gts")
+		dir := filepath.Join(outDir(), "gtsbin")
+		os.MkdirAll(dir, 0o755)
+		gtsBinPath = filepath.Join(dir, fmt.Sprintf("gts-%d", os.Getpid()))
 		cmd := exec.Command("go", "build", "-o", gtsBinPath, "github.com/go-gts/gts/cmd/gts")
 		cmd.Env = append(os.Environ(), "GOFLAGS=-mod=mod", "GOPROXY=off", "GOSUMDB=off", "GOTOOLCHAIN=local")
 		if out, err := cmd.CombinedOutput(); err != nil {
